@@ -41,8 +41,28 @@ def run(tier, seed, replay):
     cov["rows_exported"] = len(rows)
     cov["samples"].append(json.loads(rows[len(rows) // 3]))
 
+    # (C) the filter chain around a routed request: Filters.tla (operational loops = declarative promise), replayed
+    rfl = lib.run_tlc(sdir, "MC_Filters.tla", "MC_Filters.cfg", workers=4, timeout=600)
+    if not rfl.ok:
+        raise lib.Broken("Filters.tla: %s violated -- the specification itself is wrong" % rfl.violated)
+    tlc["filters"] = rfl.summary()
+    ff = os.path.join(scr.path, "filters.ndjson")
+    with open(ff, "w") as f:
+        for x in rfl.printed:
+            f.write(json.loads(x) + "\n")
     totals = {}
     for gen in ("v2", "root"):
+        fb = lib.go_module(scr, "filters", gen)
+        code, out, err, wall = lib.run_bin(fb, ["-in", ff], timeout=600)
+        if code != 0:
+            raise lib.Broken("filters harness failed (%s): %s" % (gen, err[-3000:]))
+        for line in out.splitlines():
+            o = json.loads(line)
+            if o["kind"] == "violation":
+                verdict.add(o["key"], o["what"], dict(gen=gen, **o["case"]))
+            elif o["kind"] == "stats":
+                for k, v in o["stats"].items():
+                    totals[k] = totals.get(k, 0) + v
         binp = lib.go_module(scr, "router", gen)
         trf = os.path.join(scr.path, "trace-%s.ndjson" % gen)
         code, out, err, wall = lib.run_bin(binp, ["-trees", tf, "-rows", rf, "-trace", trf, "-trace-every", "97"], timeout=7200)
